@@ -569,7 +569,16 @@ func (p *PsUnpacker) onAvPacketWrap(packet *base.AvPacket) {
 	p.onAvPacketWrapCount++
 	//nazalog.Debugf("PsUnpacker > onAvPacketWrap. packet=%s", packet.DebugString())
 	if packet.IsVideo() {
-		typ := h2645.ParseNaluType(packet.PayloadType == base.AvPacketPtAvc, packet.Payload[4])
+		// the payload starts with the nal unit's start code, which is 3 or 4 bytes long
+		scLen := 4
+		if len(packet.Payload) >= 3 && packet.Payload[0] == 0 && packet.Payload[1] == 0 && packet.Payload[2] == 1 {
+			scLen = 3
+		}
+		if len(packet.Payload) <= scLen {
+			// start code without nal unit
+			return
+		}
+		typ := h2645.ParseNaluType(packet.PayloadType == base.AvPacketPtAvc, packet.Payload[scLen])
 		//nazalog.Debugf("PsUnpacker onAvPacketWrap. type=%d", typ)
 		// TODO(chef): [opt] 等待sps等信息再开始回调，这个逻辑不完整简化了 202209
 		if p.waitSpsFlag {
